@@ -13,7 +13,7 @@ Lemma inst5a_ok : instance_ok fuel_1m cfg5 ev5a = true. Proof. vm_compute. refle
 Lemma inst5b_ok : instance_ok fuel_1m cfg5 ev5b = true. Proof. vm_compute. reflexivity. Qed.
 Lemma inst5c_ok : instance_ok fuel_1m cfg5 ev5c = true. Proof. vm_compute. reflexivity. Qed.
 Lemma inst5d_ok : instance_ok fuel_1m cfg5 ev5d = true. Proof. vm_compute. reflexivity. Qed.
-Lemma inst5b_terminates : level 39 (init cfg5 ev5b) = [].
+Lemma inst5b_terminates : level 41 (init cfg5 ev5b) = [].
 Proof. vm_compute. reflexivity. Qed.
 
 (* Stop while a new peer is being accepted: first datagram a release / a setup *)
